@@ -186,6 +186,24 @@ async fn execute_command(command: Command, frame: &Frame, store: &Store) -> Resu
 
                 // Process each value as a .recv event
                 for value in pipeline_data {
+                    // an error raised while the output is being produced ends the call with
+                    // <name>.error instead of a null result followed by .complete
+                    if let nu_protocol::Value::Error { error, .. } = &value {
+                        let working_set = nu_protocol::engine::StateWorkingSet::new(&engine.state);
+                        let _ = store.append(
+                            Frame::builder(
+                                format!("{}.error", frame.topic.strip_suffix(".call").unwrap()),
+                                frame.context_id,
+                            )
+                            .meta(serde_json::json!({
+                                "command_id": command.id.to_string(),
+                                "frame_id": frame.id.to_string(),
+                                "error": nu_protocol::format_shell_error(&working_set, error)
+                            }))
+                            .build(),
+                        );
+                        return Ok(()) as Result<(), Box<dyn std::error::Error + Send + Sync>>;
+                    }
                     let hash = store.cas_insert_sync(nu::value_to_json(&value).to_string())?;
                     let _ = store.append(
                         Frame::builder(
